@@ -68,6 +68,13 @@ def run(chk: Check) -> None:
     direct = [n for n in ast.walk(t2.node) if isinstance(n, ast.Assign) and any(isinstance(t, ast.Subscript) and norm(t.value).endswith('.ctx') for t in n.targets)]
     chk.ob('DOM-barrier-wait', t2, ok and not direct, 'every iteration registers the item for the barrier and to_context itself puts nothing into the context', node=direct[0] if direct else None,
            kind='registers-on-every-path')
+    # "each result under its key": two keys may name the SAME awaitable (ToContext(a=f, b=f)); a table indexed by the awaitable keeps only the last key
+    for f_, tbl in ((t2, 'self._awaitables'), (prog.func('workchains.Waiting.__init__'), 'self._awaiting')):
+        for n_ in [x for x in ast.walk(f_.node) if isinstance(x, ast.Assign) and isinstance(x.targets[0], ast.Subscript) and norm(x.targets[0].value) == tbl]:
+            by_key = norm(n_.targets[0].slice) in ('key',) or norm(n_.value) != 'key'
+            chk.ob('DOM-barrier-wait', f_, by_key, f'{norm(n_)}: the registration table is indexed ' + ('by the context key' if by_key else
+                   'by the awaitable, with the key as value: the same future or child registered under two keys keeps only the last one, the other key is never filled in'),
+                   node=n_, kind='registry-keeps-every-key')
     from ..rules import conditional_values
 
     def process_to_future(f, store_key: str, item: str) -> bool:
